@@ -256,6 +256,11 @@ class Ctx:
                         pre = '#[verifier::external_body] '
                     e.log('AUTO', 'constant auto-included; its value is opaque to Verus')
                     self.helpers.append(name)
+            elif kw == 'static':
+                if self.flavour == 'verus':
+                    pre = '#[verifier::external] '
+                e.log('AUTO', 'process-wide static introduced by the edit auto-included (state that outlives a call: no contract speaks about it)')
+                self.helpers.append(name)
             else:
                 e.log('AUTO', 'helper auto-included without contract')
                 self.helpers.append(name)
